@@ -352,7 +352,7 @@ def amplify_case(draw):
     """a seed constant followed by k self-amplifying re-assignments (or one nested tower): every step looks harmless, the folded value explodes"""
     k = draw(st.integers(2, 40))
     b, e = draw(st.integers(2, 9)), draw(st.sampled_from([2, 3, 8, 40, 63, 64]))
-    fam = draw(st.sampled_from(["pow_hist", "sq", "fsq", "str_double", "str_aug", "str_mul", "list_double", "shift", "tower_left", "tower_right", "mixed", "fstr_double", "fstr_mixed", "str_conv"]))
+    fam = draw(st.sampled_from(["pow_hist", "sq", "fsq", "str_double", "str_aug", "str_mul", "list_double", "shift", "tower_left", "tower_right", "mixed", "fstr_double", "fstr_mixed", "str_conv", "helper_chain", "helper_chain"]))
     if fam == "pow_hist":
         lines = [f"x = {b} ** {e}"] + [f"x = x ** {draw(st.sampled_from([2, 8, 64]))}"] * min(k, 8)
     elif fam == "sq":
@@ -369,6 +369,16 @@ def amplify_case(draw):
         lines = ["x = 'ab'"] + ['x = x + f"{x}"', 'x += f"{x}!"'] * min(k, 20)
     elif fam == "str_conv":
         lines = ["x = 'ab'"] + ["x = str(x) + str(x)"] * k
+    elif fam == "helper_chain":
+        # a chain of k helpers, each re-typing its parameter and calling the next one two or three times: the work per helper must not multiply
+        depth = draw(st.integers(8, 30))
+        retype = draw(st.sampled_from(["n = n / 2", "n = n * 0.5", "n = n + 0.5", "n = float(n)", "m = n"]))
+        calls = draw(st.sampled_from(["{f}(1) + {f}(2)", "{f}(1) + {f}(1)", "{f}(n) + {f}(3)", "{f}(1) + {f}(2) + {f}(3)", "{f}({f}(1))"]))
+        lines = []
+        for i in range(depth, 0, -1) if draw(st.booleans()) else range(1, depth + 1):
+            lines += [f"def hc{i}(n):", f"    {retype}", "    return " + (calls.format(f=f"hc{i + 1}") if i < depth else "n")]
+        lines.append("x = hc1(4)")
+        return PRELUDE + "\n".join(lines) + "\nmon.write(x)\n"
     elif fam == "str_mul":
         lines = ["x = 'ab'"] + [f"x = x * {draw(st.sampled_from([2, 10, 1000]))}"] * min(k, 12)
     elif fam == "list_double":
